@@ -670,6 +670,38 @@ fn run(tier: Tier, shard: usize, nshards: usize, _seed: u64) -> Partial {
         }
     }
 
+    // --- part 3b: duplicated genuine replies on a node whose transaction ids straddle the 32-bit
+    // wrap-around (a reply is consumed once there too)
+    for (si, back) in [1u32, 4, 9].iter().enumerate() {
+        if si % nshards != shard % nshards.max(1) && nshards > 1 && (si + 3) % nshards != shard {
+            continue;
+        }
+        START_TID.with(|c| c.set(Some(u32::MAX - back)));
+        let mut exw = Explorer::new(1, (0, 1));
+        exw.explore(&mut |chooser, count| {
+            let (ch, r) = scenario(chooser, &[], true, false);
+            if count {
+                let choices = ch.choices();
+                if let Some(pos) = choices.iter().position(|c| *c > 0) {
+                    if matches!(choices[pos], 1 | 5) {
+                        out.add("executions", 1);
+                        out.add("duplicates_at_the_wrap", 1);
+                        out.add("transitions", r.steps);
+                        if r.obs != base.obs {
+                            out.violation(
+                                format!("duplicate-reply-has-effect/{}/32-bit-wrap", base.obs.class(&r.obs)),
+                                format!("transaction-id counter started at u32::MAX - {back}; genuine reply #{pos} delivered twice: {}", base.obs.diff(&r.obs)),
+                                json!({"part": "wrap-dup", "back": back, "choices": choices}),
+                            );
+                        }
+                    }
+                }
+            }
+            (ch, true)
+        });
+        START_TID.with(|c| c.set(None));
+    }
+
     // --- part 4: a node that has sent more than 65536 requests, and the peer a request was
     // really sent to answers with an id that differs from the outstanding one by a multiple of
     // 65536 (or with its two low bytes only): not that request's id, so no effect - and the
@@ -834,6 +866,15 @@ fn replay(v: &Value) -> Result<Option<Violation>, String> {
     let menu = build_menu(&base, tier, &eps);
     let mut out = Partial::default();
     match part {
+        "wrap-dup" => {
+            let back = v.get("back").and_then(|x| x.as_u64()).unwrap_or(1) as u32;
+            START_TID.with(|c| c.set(Some(u32::MAX - back)));
+            let (_, r) = scenario(Chooser::new(choices.clone()), &[], true, false);
+            START_TID.with(|c| c.set(None));
+            if r.obs != base.obs {
+                out.violation("duplicate-reply-has-effect/32-bit-wrap", base.obs.diff(&r.obs), v.clone());
+            }
+        }
         "congruent" => {
             START_TID.with(|c| c.set(Some(LONG_RUNNING_START)));
             let (_, lbase) = scenario(Chooser::default_run(), &[], false, false);
